@@ -130,8 +130,22 @@ func e2eArpComponent(r *hx.Run) {
 			os.WriteFile(cf, []byte(res.stdout), 0o644)
 			lab.settle(30 * time.Millisecond)
 			lab.take()
-			res2 := runSX(nil, 30*time.Second, "tcp", "syn", "--json", "--exit-delay", "40ms", "-p", "443", "-a", cf, "--gwmac", gw.String(),
-				fmt.Sprintf("%s/%d", v4Text(base), ones))
+			// … as a file (`-a <file>`), or — every second run — as the README does it: `sx arp … --json | sx tcp …`,
+			// the cache on stdin (no -a at all, or `-a -`)
+			args2 := []string{"tcp", "syn", "--json", "--exit-delay", "40ms", "-p", "443", "--gwmac", gw.String()}
+			var stdin2 []byte
+			switch it % 4 {
+			case 1:
+				stdin2 = []byte(res.stdout)
+			case 3:
+				stdin2 = []byte(res.stdout)
+				args2 = append(args2, "-a", "-")
+			default:
+				args2 = append(args2, "-a", cf)
+			}
+			args2 = append(args2, fmt.Sprintf("%s/%d", v4Text(base), ones))
+			res2 := runSX(stdin2, 30*time.Second, args2...)
+			r.Count(fmt.Sprintf("cache-via:%s", map[bool]string{true: "stdin", false: "file"}[stdin2 != nil]))
 			lab.settle(50 * time.Millisecond)
 			var sent []string
 			if res2.exit != 0 || res2.timedOut {
